@@ -321,6 +321,11 @@ func (p *Path) fork(cond *Term) bool {
 	sib[len(p.trace)] = 0
 	p.sibs = append(p.sibs, sib)
 	p.st.Forks++
+	if p.eng.verbose {
+		p.eng.mu.Lock()
+		p.eng.forkSites[p.where()]++
+		p.eng.mu.Unlock()
+	}
 	p.take(cond, 1)
 	return true
 }
